@@ -151,7 +151,9 @@ PANIC_FNS_PREFIX = [
     ("alloc::vec::Vec::<T, A>::swap_remove", "Vec::swap_remove"), ("alloc::vec::Vec::<T, A>::split_off", "Vec::split_off"), ("alloc::vec::Vec::<T, A>::drain", "Vec::drain"),
     ("alloc::string::String::insert", "String::insert"), ("alloc::string::String::remove", "String::remove"), ("core::str::<impl str>::split_at", "str::split_at"),
     ("core::slice::<impl [T]>::split_at", "slice::split_at"), ("core::cell::RefCell::<T>::borrow", "RefCell::borrow"), ("core::cell::RefCell::<T>::borrow_mut", "RefCell::borrow_mut"),
-    ("proc_macro2::Literal::", "Literal::*"), ("proc_macro2::TokenStream::from_str", None),
+    # of proc_macro2::Literal's constructors only the float ones panic (on a non-finite value); string / byte-string / integer
+    # constructors, set_span and span do not
+    ("proc_macro2::Literal::f32_", "Literal::f32_*"), ("proc_macro2::Literal::f64_", "Literal::f64_*"), ("proc_macro2::TokenStream::from_str", None),
 ]
 PANIC_MACROS = {"panic", "todo", "unimplemented", "unreachable", "assert", "assert_eq", "assert_ne", "debug_assert", "debug_assert_eq", "debug_assert_ne"}
 INT_TYPES = {"usize", "isize", "u8", "u16", "u32", "u64", "u128", "i8", "i16", "i32", "i64", "i128"}
